@@ -310,6 +310,7 @@ async fn restart_wrong_key(w: &mut World, off: bool) -> R<()> {
     }
     w.checkpoint("before-restart").await?;
     w.client = None;
+    w.last_stop = "shutdown";
     let inst = w.inst.take().unwrap();
     timed("stop", inst.stop(true)).await?.map_err(Stop::Inconclusive)?;
     let mut bad = w.cfg.clone();
